@@ -169,7 +169,7 @@ def _verify_one(args):
         res, jobs = generate(qualname, registry, mod.SPECFUNS, getattr(mod, "ENGINE", None))
         verdicts = solve.discharge_objects(jobs, workers=inner_workers)
         _aggregate(res, jobs, verdicts)
-        bad = [ob for ob in res.obligations if ob.kind in ("INV-init", "INV-pres") and ob.verdict == "failed"]
+        bad = [ob for ob in res.obligations if ob.kind in ("INV-init", "INV-pres") and ob.verdict in ("failed", "candidate")]
         if not bad or res.status != "ok":
             break
         first_round_bad = bad if _round == 0 else first_round_bad
